@@ -99,9 +99,10 @@ def make_client(cfg, log, transport):
     if cfg["has_token"]:
         token = {"access_token": "at0", "token_type": "Bearer"}
         if cfg["init_expired"]:
-            token["expires_at"] = int(time.time()) - 1000
+            # "expired" includes the leeway (60 s): expired_by may be small, or negative down to -59 (about to expire)
+            token["expires_at"] = int(time.time()) - cfg.get("expired_by", 1000)
         elif cfg.get("init_far", True):
-            token["expires_at"] = int(time.time()) + 100000
+            token["expires_at"] = int(time.time()) + cfg.get("valid_for", 100000)
         if cfg["has_rt"]:
             token["refresh_token"] = "rt0"
 
